@@ -88,6 +88,8 @@ def action_context_is_replaced_whole(ctx, tag):
 
 
 def run(ctx):
+    from .C05 import pause_gate_reads_own_deadline
+    pause_gate_reads_own_deadline(ctx, "C06")
     from .C16 import resolve_rule
     resolve_rule(ctx)      # a suspended chain of a per-cgroup instance survives only while resolveWildcard keeps listing its cgroup
     from .C02 import action_chain_table
